@@ -79,6 +79,7 @@ def run(ctx, rep):
             specs.append(("GeneticProgrammingNeuralNetRegressor", dict(optimizer=o, weights_optimizer=w, weights_optimizer_args=dict(iters=2, pop_size=6),
                                                                        optimizer_args=dict(keep_history=True)), 0))
     n_wide = {}
+    earlier = []
     for name, kw, ncls in specs:
         seed = ctx.rng.randrange(1 << 20)
         n_iter, pop = ctx.rng.randint(2, 3), ctx.rng.randint(7, 9)
@@ -171,6 +172,20 @@ def run(ctx, rep):
             if len(stats["max_fitness"]) != n_iter or any(len(f) != pop for f in stats["fitness"]):
                 rep.problem("budget", "fit did not honour n_iter / pop_size", dict(where, generations=len(stats["max_fitness"])), "budget", True,
                             len(stats["max_fitness"]), n_iter, "C18")
+        # ---- a fitted model is its own: fitting ANOTHER estimator (same class or not, other label set) must not change what the
+        #      earlier ones predict or which classes they report
+        for (m_old, X_old, pred_old, classes_old, where_old) in earlier[-4:]:
+            rep.count("earlier-model-after-later-fit", (where_old["estimator"], where_old["seed"], name, seed))
+            try:
+                now = np.asarray(m_old.predict(X_old))
+                same_ = np.array_equal(now, pred_old) if now.dtype.kind not in "fc" else np.allclose(now, pred_old, rtol=1e-9, atol=1e-12)
+                cls_now = None if classes_old is None else list(map(str, m_old.classes_))
+            except Exception as e:   # noqa: BLE001
+                same_, cls_now = False, repr(e)
+            if not same_ or cls_now != classes_old:
+                rep.problem("pure", f"after fitting another estimator ({name}, labels {labels}) an earlier fitted {where_old['estimator']} (labels {where_old['labels']}) predicts differently / reports other classes",
+                            dict(where_old, later=where), "predict-impure", True, cls_now, classes_old, "C18_predict_pure")
+        earlier.append((m, X.copy(), pred.copy(), None if not ncls else list(map(str, m.classes_)), where))
         # ---- predict is pure
         sub = X[: len(X) // 2]
         p1 = np.asarray(m.predict(sub))
